@@ -16,7 +16,7 @@ use refchess::{Color, Kind, Pos};
 use serde_json::{json, Value};
 use std::cell::Cell;
 
-pub const RULE: &str = "positions as in C05 (small quiescence trees, uninterrupted search of T nodes) x expiry points: ALL k in 1..T-1 when T <= the enumeration bound (exhaustive over crash points for that position), otherwise generated k stratified over the search; variants with 1..3 interrupted searches in a row (different k, depth or a neighbouring position of the same game) before the completed follow-up. For every interruption: fresh Searcher, node-count deadline k, find_best_move (interrupted). Part 'last-iteration': many positions (tiny ones, pawn endings above all, searched to depth 5..7, small ones to 3..5; only positions whose uninterrupted search reuses no deeper cached result), 14 deadlines each, all inside the LAST iteration (its start is read from the engine's own info record). Oracle: (1) repetition-history snapshot after == before; (2) every table entry left behind is a true (depth,bound,score) claim about the reference minimax value of its position; (3) a completed follow-up fixed-depth search reports the reference value and a move attaining it (judged when no deeper cached entry was reused); (4) on K v K, K+N v K, K+B v K no follow-up of any depth reports |score| >= 32767. Non-trivial = 1 <= k < T and the interrupted search stored >= 1 entry; distinct by (FEN, depth, k-sequence).";
+pub const RULE: &str = "positions as in C05 (small quiescence trees, uninterrupted search of T nodes) x expiry points: ALL k in 1..T-1 when T <= the enumeration bound (exhaustive over crash points for that position), otherwise generated k stratified over the search; variants with 1..3 interrupted searches in a row (different k, depth or a neighbouring position of the same game) before the completed follow-up. For every interruption: fresh Searcher, node-count deadline k, find_best_move (interrupted). Part 'last-iteration': many positions (tiny ones, pawn endings above all, searched to depth 5..7, small ones to 3..5; only positions whose uninterrupted search reuses no deeper cached result), 14 deadlines each, all inside the LAST iteration (its start is read from the engine's own info record). Part 'last-iteration-large': positions of 8..22 men at depth 3..4, 12 deadlines inside the last iteration; the follow-up must report what a FRESH engine reports for the same fixed-depth search (the minimax value as far as C05 holds), both without deeper reuse. Oracle: (1) repetition-history snapshot after == before; (2) every table entry left behind is a true (depth,bound,score) claim about the reference minimax value of its position; (3) a completed follow-up fixed-depth search reports the reference value and a move attaining it (judged when no deeper cached entry was reused); (4) on K v K, K+N v K, K+B v K no follow-up of any depth reports |score| >= 32767. Non-trivial = 1 <= k < T and the interrupted search stored >= 1 entry; distinct by (FEN, depth, k-sequence).";
 
 thread_local! {
     static REF_CAP: Cell<u64> = Cell::new(60_000);
@@ -405,6 +405,96 @@ fn check_last_iteration(bytes: &[u8], stats: &mut Stats) -> Verdict {
     Ok(())
 }
 
+/// Part 'last-iteration-large': the same idea on positions too large for the plain-minimax
+/// reference (8..20 men, depth 3..4): the value a completed fixed-depth follow-up must report is the
+/// one a FRESH engine reports for the same fixed-depth search — which is the minimax value as far as
+/// C05 holds (its own check says so), provided neither search reused a deeper cached result
+/// (measured; such cases are excluded).  History snapshot as everywhere.
+fn check_last_iteration_large(bytes: &[u8], stats: &mut Stats) -> Verdict {
+    let mut s = Src::new(bytes);
+    let mut chosen = None;
+    for _try in 0..6 {
+        let p = match s.weighted(&[40, 35, 25]) {
+            0 => gen::g_play(&mut s),
+            1 => {
+                let n = 6 + s.below(12);
+                gen::g_place(&mut s, n)
+            }
+            _ => gen::g_mix(&mut s).0,
+        };
+        let men = p.men();
+        if !p.is_valid() || p.legal_moves().len() < 2 || men < 8 || men > 22 {
+            continue;
+        }
+        let d: u8 = if men <= 14 { 3 + s.below(2) as u8 } else { 3 };
+        let b = eng::to_board(&p);
+        let mut s0 = Searcher::new();
+        s0.verif_set_hard_cap(Some(250_000));
+        if std::panic::catch_unwind(std::panic::AssertUnwindSafe(|| s0.find_best_move(&b, d, None))).is_err() {
+            stats.exclude("candidate: uninterrupted search larger than the per-case bound");
+            continue;
+        }
+        if s0.verif.tt_deeper_hits.get() > 0 {
+            stats.exclude("candidate: the uninterrupted search reuses a deeper cached result");
+            continue;
+        }
+        let t = s0.verif_nodes();
+        let infos = s0.verif_timer().verif.infos.borrow().clone();
+        // the fresh fixed-depth value
+        let mut f = Searcher::new();
+        f.verif_set_hard_cap(Some(600_000));
+        let Ok((fresh, _)) = std::panic::catch_unwind(std::panic::AssertUnwindSafe(|| f.verif_search_fixed(&b, d))) else { continue };
+        if f.verif.tt_deeper_hits.get() > 0 {
+            stats.exclude("candidate: the fresh fixed-depth search reuses a deeper cached result");
+            continue;
+        }
+        chosen = Some((p, d, t, infos, fresh));
+        break;
+    }
+    let Some((p, d, t, infos, fresh)) = chosen else {
+        stats.exclude("no candidate without deeper reuse found");
+        return Ok(());
+    };
+    let fen = eng::fen(&p);
+    let b = eng::to_board(&p);
+    let before_last = infos.iter().filter(|i| i.0 + 1 == d).map(|i| i.2).max().unwrap_or(0);
+    if t < before_last + 3 {
+        return Ok(());
+    }
+    let span = t - before_last - 1;
+    for i in 0..12u64 {
+        let k = (before_last + 1 + (s.u16() as u64 + i * 65536) * span / (12 * 65536)).clamp(1, t - 1);
+        let ctx = json!({"fen": fen, "depth": d, "uninterrupted_nodes": t, "gen": "last-iteration-large", "interrupted_at_nodes": [k], "oracle": "fresh engine"});
+        let mut searcher = Searcher::new();
+        interrupted_search(&mut searcher, &p, d, k, &ctx)?;
+        stats.eval();
+        if searcher.verif.tt_deeper_hits.get() > 0 {
+            stats.exclude("follow-up not judged: deeper cached result reused during the interrupted searches");
+            continue;
+        }
+        let deeper0 = searcher.verif.tt_deeper_hits.get();
+        searcher.verif_set_hard_cap(Some(900_000));
+        let Ok((score, _)) = std::panic::catch_unwind(std::panic::AssertUnwindSafe(|| searcher.verif_search_fixed(&b, d))) else {
+            stats.exclude("follow-up over the node watchdog");
+            continue;
+        };
+        if searcher.verif.tt_deeper_hits.get() > deeper0 {
+            stats.exclude("follow-up reused a deeper cached result");
+            continue;
+        }
+        if class(score) != class(fresh) {
+            return Err(Failure::new(
+                "follow-up-differs-from-a-fresh-search",
+                json!({"context": ctx, "interrupted_at_nodes": [k], "follow_up_depth": d, "follow_up_score": score, "fresh_engine_score": fresh, "replay": {"vs_fresh": true}}),
+            ));
+        }
+        stats.class("large_follow_ups_judged_against_a_fresh_engine");
+        stats.nontrivial(&(p.fen4(), d, k));
+    }
+    stats.sample(|| json!({"fen": fen, "depth": d, "uninterrupted_nodes": t, "oracle": "fresh engine, same fixed depth", "deadlines": 12}));
+    Ok(())
+}
+
 pub fn run(tier: Tier, seed: u64, known: &Known) -> PropRun {
     let mut run = PropRun::new("fault_enumeration", RULE);
     run.assumptions = vec![
@@ -440,6 +530,13 @@ pub fn run(tier: Tier, seed: u64, known: &Known) -> PropRun {
         run.failure = fl;
         return run;
     }
+    let part = Part { name: "last-iteration-large", cases: tier.pick(500, 20_000), min_len: 24, max_len: 400, max_shrink: 40, threads: threads() };
+    let (st, fl) = run_part(&part, seed, known, check_last_iteration_large);
+    run.stats.merge(st);
+    if fl.is_some() {
+        run.failure = fl;
+        return run;
+    }
     let part = Part { name: "bare", cases: tier.pick(600, 20_000), min_len: 24, max_len: 64, max_shrink: 200, threads: threads() };
     let (st, fl) = run_part(&part, seed, known, check_bare);
     run.stats.merge(st);
@@ -456,6 +553,23 @@ pub fn replay(part: &str, bytes: &[u8], case: &Value, stats: &mut Stats) -> Verd
     let c = case.get("context").unwrap_or(case);
     let fen = c.get("fen").and_then(|x| x.as_str());
     let seq: Option<Vec<u64>> = c.get("interrupted_at_nodes").or_else(|| case.get("interrupted_at_nodes")).and_then(|x| x.as_array()).map(|a| a.iter().filter_map(|v| v.as_u64()).collect());
+    if case.get("replay").and_then(|r| r.get("vs_fresh")).is_some() {
+        if let (Some(fen), Some(seq), Some(d)) = (fen, seq.clone(), c.get("depth").and_then(|x| x.as_u64())) {
+            if let Some(p) = eng::pos_from_saved_fen(fen) {
+                let b = eng::to_board(&p);
+                let mut f = Searcher::new();
+                let (fresh, _) = f.verif_search_fixed(&b, d as u8);
+                let mut searcher = Searcher::new();
+                interrupted_search(&mut searcher, &p, d as u8, seq[0], c)?;
+                let (score, _) = searcher.verif_search_fixed(&b, d as u8);
+                stats.eval();
+                if searcher.verif.tt_deeper_hits.get() == 0 && f.verif.tt_deeper_hits.get() == 0 && class(score) != class(fresh) {
+                    return Err(Failure::new("follow-up-differs-from-a-fresh-search", json!({"context": c, "follow_up_score": score, "fresh_engine_score": fresh})));
+                }
+                return Ok(());
+            }
+        }
+    }
     if let (Some(fen), Some(seq)) = (fen, seq) {
         if let Some(p) = eng::pos_from_saved_fen(fen) {
             if part == "bare" || case.get("follow_up_depth").is_some() && case.get("interrupted_depth").is_some() {
@@ -476,6 +590,7 @@ pub fn replay(part: &str, bytes: &[u8], case: &Value, stats: &mut Stats) -> Verd
     match part {
         "bare" => check_bare(bytes, stats),
         "last-iteration" => check_last_iteration(bytes, stats),
+        "last-iteration-large" => check_last_iteration_large(bytes, stats),
         _ => check(bytes, stats),
     }
 }
